@@ -53,6 +53,10 @@ fn main() {
         "C05" => props::c05::run_c05(&cx),
         "C09" => props::c05::run_c09(&cx),
         "C07" => props::c07::run_c07(&cx),
+        "C14" => props::c14::run_c14(&cx),
+        "C12" => props::c12::run_c12(&cx),
+        "C16" => props::c16::run_c16(&cx),
+        "C17" => props::c16::run_c17(&cx),
         "C08" => props::iters::run_c08(&cx),
         "C10" => props::iters::run_c10(&cx),
         "C11" => props::iters::run_c11(&cx),
@@ -69,7 +73,7 @@ fn main() {
 
 fn replay(case: &frmc_core::json::J) -> i32 {
     match case.str_of("kind").as_str() {
-        "refsweep" | "shadow" | "c05" | "c09" | "c07" | "c13" | "c03" | "c04" | "c08" | "c10" | "c11" => refsweep::replay(case),
+        "refsweep" | "shadow" | "c05" | "c09" | "c07" | "c13" | "c03" | "c04" | "c08" | "c10" | "c11" | "c16" | "c17" => refsweep::replay(case),
         k => {
             eprintln!("unknown replay kind {:?}", k);
             2
